@@ -152,8 +152,13 @@ func runHistory(rt *rapid.T, o *historyOpts) {
 				vs = append(vs, o.extra(w, rec)...)
 			}
 			judge(rt, o, w, rec, vs)
-			for _, key := range o.classify(w, rec) {
-				o.col.Nontrivial(key)
+			keys := o.classify(w, rec)
+			if len(keys) > 0 {
+				// distinct non-trivial cases are counted by the full situation of the scan, the
+				// coarse class keys only feed the histogram
+				o.col.Nontrivial(rec.SituationKey(w))
+			}
+			for _, key := range keys {
 				parts := strings.SplitN(key, "|", 3)
 				if len(parts) > 2 {
 					parts = parts[:2]
@@ -170,6 +175,7 @@ func runHistory(rt *rapid.T, o *historyOpts) {
 }
 
 func historyCheck(t *testing.T, o *historyOpts) {
+	o.col.Rule += "; distinct cases are counted by the situation digest of each non-trivial scan (per group: configuration numbers, every node's class / taint-age bucket / occupancy / protection, exact request and capacity totals, lock state, actions taken); the coarse class of each non-trivial scan is in class_histogram"
 	rapid.Check(t, func(rt *rapid.T) { runHistory(rt, o) })
 }
 
